@@ -38,9 +38,10 @@ func streamC19(c *Ctx) {
 			recordHistory(c, lines, &o, be)
 			c.Count(fmt.Sprintf("export-import-size:%d", size))
 			if o.Index >= 0 {
-				reportHistoryProblem(c, dr, im, lines, &o, be, HistOpts{}, "export-import-size")
-				im.Destroy()
-				return
+				if reportHistoryProblem(c, dr, im, lines, &o, be, HistOpts{}, "export-import-size") {
+					im.Destroy()
+					return
+				}
 			}
 		}
 		for i := 0; i < n; i++ {
@@ -109,9 +110,10 @@ func streamC19(c *Ctx) {
 				}
 			}
 			if o.Index >= 0 {
-				reportHistoryProblem(c, dr, im, lines, &o, be, HistOpts{}, "export-import")
-				im.Destroy()
-				return
+				if reportHistoryProblem(c, dr, im, lines, &o, be, HistOpts{}, "export-import") {
+					im.Destroy()
+					return
+				}
 			}
 		}
 		im.Destroy()
